@@ -103,5 +103,35 @@ pub fn gen(ctx: &mut Ctx) {
             } }
         }
     }
+    // ---- ceremonies that fail late: a PRF evaluation at creation that the configuration cannot serve without
+    //      verification (fails after everything else succeeded), with and without faults / cancellation
+    for kind in kinds {
+        for k in 0..9usize {
+            let mut m = simple_make(ctx, rp); m.uv = false;
+            m.ext = Some((None, false, Some(PrfI { eval: Some(PrfV { first: [6u8; 32], second: None }), by_cred: None })));
+            let mut s = step(Op::Make(m)); s.uv.answer = Ok((true, false));
+            if k > 0 { s.cancel_after = Some(k - 1); }
+            let w = World { kind, counter_on: true, id_len: 16, hm: Hm::UvOnlyMc, preload: vec![] };
+            let after = step(Op::Make(simple_make(ctx, rp)));
+            run_case(ctx, "C07", &w, &[s, after]); case_no += 1;
+            ctx.stat("c07.make.late_failure");
+        }
+    }
+    // ---- authentications without a presence test (up = false), with faults and cancellation
+    for kind in kinds {
+        for ctr in [Some(0u32), Some(41)] {
+            let id = vec![0xD9, 1, 2, 3, 4, 5, 6, 7, 8, 9, 10, 11, 12, 13, 14, 15];
+            for variant in 0..10usize {
+                let mut g = simple_get(ctx, rp); g.allow = Some(vec![id.clone()]); g.up = false; g.uv = variant % 2 == 0;
+                let mut s = step(Op::Get(g));
+                match variant { 2 | 3 => s.faults = vec![None, Some(0x7F)], 4 | 5 => s.faults = vec![Some(0x28)], 6..=9 => s.cancel_after = Some(variant - 6), _ => {} }
+                let mut g2 = simple_get(ctx, rp); g2.allow = Some(vec![id.clone()]); g2.up = false; g2.uv = false;
+                let p = make_passkey(ctx, id.clone(), rp, Some(vec![9]), ctr, None);
+                let w = World { kind, counter_on: true, id_len: 16, hm: Hm::None, preload: vec![p] };
+                run_case(ctx, "C07", &w, &[s, step(Op::Get(g2))]); case_no += 1;
+                ctx.stat("c07.get.silent");
+            }
+        }
+    }
     ctx.stat_n("c07.cases", case_no as u64);
 }
